@@ -1,8 +1,9 @@
+import os
 """Spellings of keywords and built-in names, read code point by code point from
 /repo's sources on every run (never typed: two keywords contain U+09DF, which is not NFC)."""
 import re, os, struct
 
-REPO = '/repo'
+REPO = os.environ.get('BORNO_REPO', '/repo')   # default: the repository itself; tools/seedtest.py points the checks at a scratch worktree
 
 
 def _unq(s):
